@@ -650,7 +650,7 @@ def esc_table(ctx):
     return out
 
 
-@rule("ESC-CATEGORY", ["C10", "C09", "C07"], floor=6)
+@rule("ESC-CATEGORY", ["C10", "C09", "C07"], floor=9)
 def esc_category(ctx):
     """\\p{X}: names of length 1-2 -> category_group(X); 'Is'+B -> block(B); anything else -> Error::Syntax;
     \\P{..} is the complement of \\p{..} (one complement() on the not-'p' side); missing '{' or '}' -> Error::Syntax."""
@@ -693,6 +693,65 @@ def esc_category(ctx):
         out.append(ok("P-is-complement-of-p"))
     else:
         out.append(bad("P-is-complement-of-p", "every Ok of \\P{..} must apply exactly one complement() that \\p{..} does not", b.loc()))
+    # what \\p{..} hands back is a *class* term, never the single-character term: parse_character_class takes a Char
+    # term for a possible range end point ('[!-\\p{Zl}]' would become a range, '[\\p{Zl}-z]' an error) and
+    # parse_terminal sends a Char back to parse_atom.  Two sites establish it: the value is built as the inversion-list
+    # variant (here or in the function it comes from), and the From conversion never picks the Char variant.
+    VAR = "CharacterClassBuilder::CodePointInversionListBuilder{"
+    fb = [x for x in ctx.f.bodies if x.path.startswith("<character_class::CharacterClassBuilder as std::convert::From<") and "CodePointInversionListBuilder" in x.path]
+    conv_ok = True
+    for x in fb:
+        rets = [strip_ver(render(w_.ret)) for w_ in ctx.walk(x).paths if w_.end == "return"]
+        if rets and all(r_.startswith(VAR) for r_ in rets):
+            out.append(ok("from-builder-is-class"))
+        else:
+            conv_ok = False
+            out.append(bad("from-builder-is-class", "From<CodePointInversionListBuilder> for CharacterClassBuilder must yield the inversion-list variant on every path (a Char term is a range end point to parse_character_class); returns %s" % sorted({r_[:60] for r_ in rets}), x.loc()))
+
+    def _classy(r_, depth=0):
+        r_ = strip_ver(r_)
+        while True:
+            m_ = re.match(r"^conv<[^(]*>\((.*)\)$", r_)
+            if m_:
+                if not conv_ok:
+                    return False
+                r_ = m_.group(1)
+                if not r_.startswith("CharacterClassBuilder::") and not r_.startswith("try("):
+                    return True      # conversion from the plain builder: decided by from-builder-is-class
+                continue
+            m_ = re.match(r"^CharacterClassBuilder::complement\((.*)\)$", r_)
+            if m_:
+                r_ = m_.group(1)
+                continue
+            break
+        if r_.startswith(VAR):
+            return True
+        m_ = re.match(r"^try\(((?:\w+::)*)(\w+)\(", r_)
+        if m_ and depth < 3:
+            cands = [x for x in ctx.f.bodies if x.kind != "Closure" and x.path.split("::")[-1] == m_.group(2) and "CharacterClassBuilder" in strip_lt(x.locals[0]["ty"])]
+            if len(cands) != 1:
+                return False
+            rs = []
+            for w_ in ctx.walk(cands[0]).paths:
+                q = strip_ver(render(w_.ret))
+                if w_.end != "return" or q.startswith("propagate(") or q.startswith("Result::Err{"):
+                    continue
+                mm = re.match(r"^Result::Ok\{0: (.*)\}$", q)
+                rs.append(mm.group(1) if mm else q)
+            return bool(rs) and all(_classy(q, depth + 1) for q in rs)
+        return False
+    for nm, lst in (("p", pp), ("P", PP)):
+        vals = []
+        for p in lst:
+            r = render(p.ret) if p.end == "return" else ""
+            m_ = re.match(r"^Result::Ok\{0: (.*)\}$", strip_ver(r))
+            if m_:
+                vals.append(m_.group(1))
+        if vals and all(_classy(v_) for v_ in vals):
+            out.append(ok("yields-class|" + nm))
+        else:
+            worst = [v_ for v_ in vals if not _classy(v_)]
+            out.append(bad("yields-class|" + nm, "\\%s{..} must hand back a class term (inversion-list variant) on every Ok path, never a term that can be CharacterClassBuilder::Char; found %s" % (nm, (worst or ["<no Ok path>"])[0][:120]), b.loc()))
     # argument provenance: category_group(name) where name = pattern[idx..close] (len 1|2), block(name[2..])
     se = ctx.senv(b)
     for bb, t, r in call_sites(b, lambda r: r == "category::category_group"):
